@@ -259,9 +259,29 @@ class Case:
         self.violations.append(dict(key=key or f"{self.name}/{name}", case=self.name, obligation=name, detail=jsonable(detail)))
         return False
 
-    def prove_eq(self, name, lhs, rhs, assume=(), replay=None, key=None, chunk=1, tol=None, box=None):
-        """entrywise equality of two (object) arrays, chunked into disjunctive queries."""
+    def prove_eq(self, name, lhs, rhs, assume=(), replay=None, key=None, chunk=1, tol=None, box=None, roundoff=None, scale=1.0):
+        """entrywise equality of two (object) arrays, one query per entry.
+
+        roundoff=r: "equal up to round-off of placement-time constants".  Per entry the exact identity is tried first;
+        if it fails, the *tolerance query* is posed: every free variable boxed to [-1, 1], claim |lhs-rhs| <= r*scale,
+        with the difference brought to sum-of-monomials form by z3 and every non-linear monomial of boxed variables
+        abstracted by a fresh variable in [-1, 1] (sound relaxation; the query stays in QF_LRA).  ``scale`` is the
+        typical magnitude of the compared quantity (so r is a relative tolerance)."""
         from .jx2smt import lift
+
+        if roundoff is not None:
+            a, b = lift(lhs), lift(rhs)
+            if a.shape != b.shape:
+                a, b = np.broadcast_arrays(a, b)
+            ok = True
+            for i, (x, y) in enumerate(zip(a.reshape(-1), b.reshape(-1))):
+                if isinstance(x, Cx) or isinstance(y, Cx):
+                    x, y = sc.cx(x), sc.cx(y)
+                    ok &= self._prove_roundoff(f"{name}[{i}].re", x.re, y.re, assume, replay, key, roundoff * scale)
+                    ok &= self._prove_roundoff(f"{name}[{i}].im", x.im, y.im, assume, replay, key, roundoff * scale)
+                else:
+                    ok &= self._prove_roundoff(f"{name}[{i}]", x, y, assume, replay, key, roundoff * scale)
+            return ok
 
         a, b = lift(lhs), lift(rhs)
         if a.shape != b.shape:
@@ -294,6 +314,91 @@ class Case:
                 claim = z3.And(*zs) if zs else True
             ok &= self.prove(f"{name}[{i}:{i + len(part)}]", claim, assume, replay, key)
         return ok
+
+    def _prove_roundoff(self, name, x, y, assume, replay, key, tol):
+        if not isz(x) and not isz(y):
+            d = abs(float(x) - float(y))
+            return self.prove(name, bool(d <= tol), (), None, key) if d <= tol else self.prove(name, False, assume, replay, key)
+        d = z3.simplify(sc.toreal(sc.toz(x)) - sc.toreal(sc.toz(y)), som=True)
+        if z3.is_rational_value(d) or z3.is_int_value(d):
+            v = abs(float(d.as_fraction()))
+            return self.prove(name, True) if v <= tol else self.prove(name, False, assume, replay, key)
+        # abstraction of non-linear monomials of boxed variables
+        vars_, fresh, cache = {}, [], {}
+        ok_shape = [True]
+
+        def ab(t):
+            tid = t.get_id()
+            if tid in cache:
+                return cache[tid]
+            if z3.is_const(t):
+                if t.decl().kind() == z3.Z3_OP_UNINTERPRETED:
+                    vars_[tid] = t
+                r = t
+            elif t.decl().kind() == z3.Z3_OP_MUL:
+                ch = t.children()
+                nums = [c for c in ch if z3.is_rational_value(c) or z3.is_int_value(c)]
+                rest = [c for c in ch if not (z3.is_rational_value(c) or z3.is_int_value(c))]
+                if len(rest) <= 1:
+                    r = t if not rest else (z3.Product(*nums, ab(rest[0])) if nums else ab(rest[0]))
+                else:
+                    for c in rest:
+                        if not (z3.is_const(c) and c.decl().kind() == z3.Z3_OP_UNINTERPRETED) and not (c.decl().kind() == z3.Z3_OP_POWER):
+                            ok_shape[0] = False
+                        for u in ([c] if z3.is_const(c) else c.children()):
+                            if z3.is_const(u) and u.decl().kind() == z3.Z3_OP_UNINTERPRETED:
+                                vars_[u.get_id()] = u
+                    m = z3.Real(f"mono!{len(fresh)}!{self.obligations}")
+                    fresh.append(m)
+                    r = z3.Product(*nums, m) if nums else m
+            elif t.decl().kind() == z3.Z3_OP_POWER:
+                base = t.children()[0]
+                if not (z3.is_const(base) and base.decl().kind() == z3.Z3_OP_UNINTERPRETED):
+                    ok_shape[0] = False
+                vars_[base.get_id()] = base
+                m = z3.Real(f"mono!{len(fresh)}!{self.obligations}")
+                fresh.append(m)
+                r = m
+            elif t.decl().kind() in (z3.Z3_OP_ADD, z3.Z3_OP_SUB, z3.Z3_OP_UMINUS):
+                ch = [ab(c) for c in t.children()]
+                r = z3.Sum(*ch) if t.decl().kind() == z3.Z3_OP_ADD else (ch[0] - z3.Sum(*ch[1:]) if t.decl().kind() == z3.Z3_OP_SUB and len(ch) > 1 else -ch[0])
+            else:
+                ok_shape[0] = False
+                r = t
+            cache[tid] = r
+            return r
+
+        da = ab(d)
+        if not ok_shape[0]:
+            return self.prove(name, sc.eq(x, y), assume, replay, key)
+        T = z3.RealVal(Fraction(tol))
+        box = [z3.And(v >= -1, v <= 1) for v in list(vars_.values()) + fresh]
+        self.obligations += 1
+        sneg = z3.Or(da > T, da < -T)
+        self.nontrivial.add(z3.simplify(sneg).hash())
+        verdict, m, s_ = self._check(box + [sneg])
+        if len(self.samples) < 3:
+            self.samples.append(dict(case=self.name, obligation=name, verdict=verdict, mode="round-off tolerance query (boxed inputs, monomial abstraction)", tol=tol, variables=len(vars_), abstracted_monomials=len(fresh)))
+        if verdict == "unsat":
+            self.discharged += 1
+            self.extra["tolerance_mode_obligations"] = self.extra.get("tolerance_mode_obligations", 0) + 1
+            return True
+        if verdict == "unknown":
+            self.inconclusive.append(f"{self.name}/{name}: tolerance query unknown")
+            return False
+        if replay is None:
+            self.inconclusive.append(f"{self.name}/{name}: tolerance query has a counterexample but no replay is available")
+            return False
+        try:
+            violated, detail = replay(m)
+        except Exception as ex:  # noqa: BLE001
+            self.inconclusive.append(f"{self.name}/{name}: replay raised {type(ex).__name__}: {ex}")
+            return False
+        if violated:
+            self.violations.append(dict(key=key or f"{self.name}/{name}", case=self.name, obligation=name, detail=jsonable(detail)))
+        else:
+            self.inconclusive.append(f"{self.name}/{name}: tolerance-query witness did not reproduce on the real code ({jsonable(detail)})"[:500])
+        return False
 
     def witness(self, name, formula, assume=()):
         """vacuity twin: assume AND formula must be satisfiable (reachability of the assertion)."""
